@@ -978,6 +978,24 @@ func flagRules(c *Ctx, rule string) {
 			ok, why = false, "more than one return (idiom not recognised)"
 		}
 		for _, rt := range rets {
+			// the negation of the sibling predicate on the same packet, the sibling being written as the direct test
+			// (and judged by this rule on its own): IsUnicast() = !IsBroadcast()
+			if neg, isNeg := rt.Results[0].(*ssa.UnOp); isNeg && neg.Op == token.NOT {
+				other := "IsBroadcast"
+				if w.name == "IsBroadcast" {
+					other = "IsUnicast"
+				}
+				if cl, isCall := neg.X.(*ssa.Call); isCall && cl.Call.StaticCallee() != nil && cl.Call.StaticCallee() == ccFind(c, v4pkg, "DHCPv4", other) &&
+					len(cl.Call.Args) == 1 && cl.Call.Args[0] == ssa.Value(f.Params[0]) {
+					direct := false
+					if ors := returnsOf(cl.Call.StaticCallee()); len(ors) == 1 {
+						_, direct = ors[0].Results[0].(*ssa.BinOp)
+					}
+					if direct {
+						continue
+					}
+				}
+			}
 			cmp, isCmp := rt.Results[0].(*ssa.BinOp)
 			if !isCmp || (cmp.Op != token.EQL && cmp.Op != token.NEQ) {
 				ok, why = false, "the result is not a comparison of the masked flags field"
